@@ -32,9 +32,10 @@ impl Visitor<Print> for PrintLinter {
         }
         for print_arg in &print.args {
             if let PrintArg::Expression(expr_pos) = print_arg {
-                let type_definition = expr_pos.expression_type();
-                if let ExpressionType::UserDefined(_) = type_definition {
-                    return Err(LintError::TypeMismatch.at(expr_pos));
+                // only numbers and strings can be printed: not a record, not an entire array
+                match expr_pos.expression_type() {
+                    ExpressionType::BuiltIn(_) | ExpressionType::FixedLengthString(_) => {}
+                    _ => return Err(LintError::TypeMismatch.at(expr_pos)),
                 }
             }
         }
